@@ -120,7 +120,8 @@ def run_canaries(pid, cfg, tier, procs):
     mine = [c for c in CANARIES if pid in c['props']]
     if tier == 'quick':
         mine = mine[:cfg.get('quick_canaries', 2)]
-    for c in mine:
+    all_tasks = []
+    for ci, c in enumerate(mine):
         src = Sources()
         mi = src.module(c['module'])
         with open(mi.path) as f:
@@ -133,7 +134,14 @@ def run_canaries(pid, cfg, tier, procs):
         for t in tasks:
             t['timeout_ms'] = 3000          # a canary only has to FAIL an obligation; no need to wait for long timeouts
             t['no_cvc5'] = True
-        recs = run_units(tasks, procs)
+            t['stop_on_fail'] = True
+            t['canary'] = ci
+        all_tasks += tasks
+    recs_all = run_units(all_tasks, procs)
+    for ci, c in enumerate(mine):
+        recs = [r for t, r in zip(all_tasks, recs_all) if t.get('canary') == ci]
+        if not recs:
+            continue
         failed = [o['name'] for r in recs for o in r['obligations'] if o['status'] != 'unsat']
         unsupported = [r['why'] for r in recs if r['status'] != 'ok']
         results.append({'canary': c['name'], 'status': 'caught' if failed else ('unsupported' if unsupported else 'MISSED'),
@@ -268,7 +276,7 @@ def main():
     if not failures and not violations:
         for o in open_obs:
             # a definite counter-model for an obligation whose falsification replay cannot force
-            if o['status'] == 'sat' and o['kind'] in cfg.get('no_input_kinds', ()):
+            if o['status'] == 'sat' and o['kind'] in cfg.get('no_input_kinds', ('frame',)):
                 nrep += 1
                 path = write_replay(pid, nrep, {'property': pid, 'obligation': o['name'], 'unit': o['unit'],
                                                 'solver_output': o.get('model'), 'job': None})
